@@ -30,7 +30,7 @@ RULE = ("projects from the C09 split generator; every file gets four contents: t
 def run(chk):
     chk.build_rust(); chk.build_js()
     quick = chk.tier == "quick"
-    passes = [_pass(chk.seed * 100 + 14, 1200, "watch(random)")] if quick else [_pass(chk.seed * 100 + k, 8000, f"watch(random#{k})") for k in range(5)]
+    passes = [_pass(chk.seed * 100 + 14, 2500, "watch(random)")] if quick else [_pass(chk.seed * 100 + k, 8000, f"watch(random#{k})") for k in range(5)]
     return vcheck.generic_run(chk, MODULES, AUDIT, passes,
         ["C14: the compiler is a PARAMETER of the session model (`World.extract`, a function of the file-manager view): that beff_core::extract only reads files through the "
          "FileManager trait and is deterministic (C10) is trusted; `World.parse` is parse_and_bind with the host resolver, whose answers are constant while the set of files is fixed",
